@@ -197,8 +197,8 @@ def run(repo, res, tier):
     sk_bash.matchfn_rule(repo, res, tier)
     sk_bash.candord_rule(repo, res, tier)  # command output inside a word: the same longest-first discipline as for literals
     siblings(repo, res)
-    res.floor("SORTLEN", res.count("SORTLEN"), 2)
-    res.floor("SK-SUB", res.count("SK-SUB"), 10)
-    res.floor("SK-MATCHFN", res.count("SK-MATCHFN"), 11)
-    res.floor("SIBLINGS", res.count("SIBLINGS"), 9)
+    res.floor("SORTLEN", res.count("SORTLEN"), 1)
+    res.floor("SK-SUB", res.count("SK-SUB"), 6)
+    res.floor("SK-MATCHFN", res.count("SK-MATCHFN"), 6)
+    res.floor("SIBLINGS", res.count("SIBLINGS"), 4)
     res.advisory("bash: the command-candidate loop inside the within-word matcher (`break 3` when a candidate extends the typed remainder) has no mode guard; overlapping outputs of an external command inside a word are outside C12's wording (values of the grammar)")
